@@ -862,6 +862,9 @@ spifconf_open_file(spif_charptr_t name)
     return (fp);
 }
 
+/* Private file state flag:  the path was allocated by the %include handling and is freed when the file is popped. */
+#define FILE_PATH_ALLOCATED   (0x80)
+
 #define SPIFCONF_PARSE_RET()  do {if (!fp) {file_pop(); ctx_end();} return;} while (0)
 void
 spifconf_parse_line(FILE * fp, spif_charptr_t buff)
@@ -903,8 +906,9 @@ spifconf_parse_line(FILE * fp, spif_charptr_t buff)
               if (!(fp = spifconf_open_file(path))) {
                   libast_print_error("Parsing file %s, line %lu:  Unable to locate %%included config file %s (%s), continuing\n", file_peek_path(),
                               file_peek_line(), path, strerror(errno));
+                  FREE(path);
               } else {
-                  file_push(fp, path, NULL, 1, 0);
+                  file_push(fp, path, NULL, 1, FILE_PATH_ALLOCATED);
               }
           } else if (directive && !BEG_STRCASECMP(directive, "preproc ")) {
               spif_char_t cmd[PATH_MAX], fname[PATH_MAX];
@@ -1008,6 +1012,9 @@ spifconf_parse(spif_charptr_t conf_name, const spif_charptr_t dir, const spif_ch
         if (file_peek_preproc()) {
             remove((char *) file_peek_outfile());
             FREE(file_peek_outfile());
+        }
+        if (fstate[fstate_idx].flags & FILE_PATH_ALLOCATED) {
+            FREE(file_peek_path());
         }
         file_pop();
     }
